@@ -116,6 +116,9 @@ pub fn threshold_family(n: usize) -> Vec<Vec<Node>> {
         let mut twice = kids(n);
         twice.extend(kids(n));
         out.push(vec![el("r", vec![el("p", twice)])]);
+        // n documents: d in every second one; c missing from the last one only
+        out.push((0..n).map(|i| el("r", if i % 2 == 0 { vec![leaf("c")] } else { vec![leaf("c"), leaf("d")] })).collect());
+        out.push((0..n).map(|i| el("r", if i + 1 == n { vec![leaf("d")] } else { vec![leaf("c"), leaf("d")] })).collect());
     }
     out
 }
